@@ -58,8 +58,13 @@ async def run(backend):
         await settle(st)
     gc = GC(st)
     if backend == "sql":
-        async with st.db.begin() as conn:
-            await gc.collect(conn)
+        # the collector runs on whatever pooled connection it is given -- here NOT the first one the process opened
+        held = await st.db.connect()
+        try:
+            async with st.db.begin() as conn:
+                await gc.collect(conn)
+        finally:
+            await held.close()
     else:
         with st.db.begin() as txn:
             await gc.collect(txn)
@@ -73,6 +78,17 @@ async def run(backend):
                 got.append(e2.id)
         if got:
             left.add(ev.id)
+    if backend == "sql":
+        # index rows of removed events must be gone with them (tag queries and later collector passes read the tags table)
+        import sqlite3
+        url = str(st.db.url)
+        path = url.split("///", 1)[1]
+        c = sqlite3.connect(path)
+        orphans = c.execute("SELECT count(*) FROM tags WHERE id NOT IN (SELECT id FROM events)").fetchone()[0]
+        c.close()
+        cases += 1
+        if orphans:
+            fails.append(("index-rows-of-removed-events-left-behind", None, {"orphan_tag_rows": orphans}))
     await st.close()
     for ev, kind, text, expired, cls in evs:
         cases += 1
